@@ -96,6 +96,28 @@ def drive(tier):
     results = seqx.drive(sys.modules[__name__], tier, START, depth_limit=depth_limit(tier), max_states=80 if tier == "quick" else 800)
     if any("harness_error" in r for r in results):
         return results
+    # witnesses of the recorded known findings that lie deeper than the BFS of this tier: checked as extra states, so that every
+    # listed finding is re-examined (and printed) in every run
+    import json as _json
+    import os as _os
+
+    from vlib import core as _core
+
+    seen_h = set()
+    extra = []
+    try:
+        kf = _json.load(open(_os.path.join(_core.ROOT, "known_findings.json")))["findings"]
+    except Exception:
+        kf = []
+    for f in kf:
+        h = (f.get("witness") or {}).get("history")
+        if f.get("property") == PROPERTY and f.get("kind") == "known" and h and len(h[1]) > depth_limit(tier):
+            key = (h[0], tuple(h[1]))
+            if key not in seen_h:
+                seen_h.add(key)
+                extra.append(key)
+    if extra:
+        results.extend(_core.pmap(__name__, [("level", extra)], tier))
     # statement-program round: every small $PRED program (straight-line reassignments, logical and block IFs) through the
     # refactorings that rewrite statements
     from vlib import core
